@@ -580,6 +580,21 @@ func checkC20EntropyInner(c c20EntropyCase) error {
 				wide := new(big.Int).Lsh(big.NewInt(1), 8*70)
 				der, _ := asn1.Marshal(struct{ R, S *big.Int }{wide, big.NewInt(5)})
 				return der, nil
+			case "stub-truncated-der-2n", "stub-truncated-der":
+				// the key's answer arrives damaged: a real ASN.1 signature cut short (to exactly twice the
+				// order size - the length of a COSE signature - or by one byte). No ASN.1, so no signature
+				der, err := priv.Sign(r, d, o)
+				if err != nil {
+					return nil, err
+				}
+				if mode == "stub-truncated-der" {
+					return der[:len(der)-1], nil
+				}
+				n := 2 * refcose.OrderSize(priv.Public().(*ecdsa.PublicKey).Curve)
+				for len(der) < n {
+					der = append(der, der...)
+				}
+				return der[:n], nil
 			case "stub-fails-once":
 				// a transient fault: only the first operation of the key fails
 				if ncalls == 1 {
@@ -782,8 +797,8 @@ func TestC20_Entropy(t *testing.T) {
 					}
 				}
 			}
-			for _, sgn := range []string{"stub-error", "stub-partial", "stub-empty", "stub-fails-once", "stub-panics", "stub-oversized-der", "opaque-trailing-der", "cose-key-inconsistent-pair"} {
-				if km.Family() != "ec" && sgn == "stub-oversized-der" {
+			for _, sgn := range []string{"stub-error", "stub-partial", "stub-empty", "stub-fails-once", "stub-panics", "stub-oversized-der", "stub-truncated-der-2n", "stub-truncated-der", "opaque-trailing-der", "cose-key-inconsistent-pair"} {
+				if km.Family() != "ec" && (sgn == "stub-oversized-der" || strings.HasPrefix(sgn, "stub-truncated-der")) {
 					continue
 				}
 				if km.Family() != "ec" && (sgn == "opaque-trailing-der" || sgn == "cose-key-inconsistent-pair") {
